@@ -325,7 +325,8 @@ class Gen:
         kinds = ["push"] * 10 + ["pushc"] * 5 + ["pop"] * 6 + ["resize"] * 9 + ["rewind"] * 3 + ["trunc"] * 2 + ["reset"] * 2 + \
                 ["set"] * 4 + ["index"] * 2 + ["memset"] + ["view"] * 4 + ["reshape"] * 2 + ["data"] * 2 + ["copy"] * 2 + \
                 ["copyinto"] * 2 + ["move"] * 3 + ["sort"] * 2 + ["uniq"] * 2 + ["issorted"] + ["isequal"] * 2 + ["bsearch"] * 2 + \
-                ["checksum"] + ["isperm"] + ["split"] * 2 + ["permute"] * 2 + ["killview"] * 6 + ["destroy"] * 2 + ["drop"]
+                ["checksum"] + ["isperm"] + ["split"] * 2 + ["permute"] * 2 + ["killview"] * 6 + ["destroy"] * 2 + ["drop"] + \
+                ["viewcycle"] * 4
         if nlive < 2:
             kinds += ["create"] * 30
         elif nlive < 7:
@@ -395,6 +396,20 @@ class Gen:
         if k == "reset":
             h = self.pick(lambda h, x: not x.own or not ref.rooted(h))
             return h is not None and self.emit(["reset", H(h)])
+        if k == "viewcycle":
+            # shrink a view (to 0 or a few elements, by rewind or resize) and grow it again inside its capacity:
+            # it must still be the same window of its root (a view that turned into an owner would not alias any more)
+            h = self.pick(lambda h, x: not x.own and x.cap >= x.e)
+            if h is None:
+                return False
+            x = ref.a[h]
+            lo = r.choice([0, 0, 0, x.n // 2, max(0, x.n - 1)])
+            ok = self.emit(["rewind", H(h), H(min(lo, x.n))] if (r.random() < 0.6 and lo <= x.n) else ["resize", H(h), H(lo), hb(self.rb(max(0, lo - x.n) * x.e))])
+            if r.random() < 0.3:
+                self.emit(["memset", H(x.root), H(r.randrange(256))])
+            n = r.choice([x.cap // x.e, r.randrange(0, x.cap // x.e + 1)])
+            x = ref.a[h]
+            return self.emit(["resize", H(h), H(n), hb(self.rb(max(0, n - x.n) * x.e))]) or ok
         if k == "killview":
             h = self.pick(lambda h, x: not x.own)
             if h is None:
@@ -660,7 +675,10 @@ def run(ctx):
         if s.startswith("FAILED"):
             ctx.tie_broken("translator group " + g, s)
     ctx.props()
-    v = ctx.variant(mpi="off", san=True)
+    # glibc declares qsort/bsearch/memset/memcmp arguments nonnull; libsc passes array->array == NULL together with a
+    # count of 0 for empty arrays (sc_array_sort, _bsearch, _memset, _is_equal).  That is outside what C08 states (count and
+    # bytes of the elements), so the nonnull-attribute check is off; everything else of ASan/UBSan stays fatal.
+    v = ctx.variant(mpi="off", san=True, cflags_extra=("-fno-sanitize=nonnull-attribute",))
     exe = ctx.cc([os.path.join(vlib.TOOLS, "harness", "c08_harness.c")], os.path.join(ctx.scratch, "c08_harness"), v)
     nh = 350 if ctx.quick else 6000
     hists = []
